@@ -71,6 +71,16 @@ class P(framework.Prop):
             t = rng.choice(["1", "-1.5", "1e3", " 2 ", "abc", "", "0x10", "1.", "01", "-0", "1e400", "12345678901234567890", "[1]", "true",
                             "null", "\"3\"", "1 2", "3.25", "1E-2", "-", "+1", ".5", "9007199254740993", "0.1", "123456789.123456789123"])
             out.append(fn("to_number", t))
+        # the expression reference is evaluated against every element, null and falsy elements included
+        arrs = [[1, None, "a"], [None], [None, None, 2], [[], None, {}, "", False, 0], [{"k": None}, None, {"k": 1}], [[None], None]]
+        for _ in range(4 if tier == "quick" else 200):
+            arrs.append([rng.choice([None, None, 1, "s", [], {}, False, [None], {"k": None}]) for _ in range(rng.randint(1, 6))])
+        for arr in arrs:
+            for e in ["map(&type(@), @)", "map(&`1`, @)", "map(&(@ == `null`), @)", "map(&to_string(@), @)", "map(&not_null(@, `0`), @)", "map(&@, @)",
+                      "map(&[@], @)", "map(&{v: @}, @)", "map(&!@, @)", "map(&(@ || 'd'), @)", "map(&(@ && 'd'), @)", "map(&length(to_array(@)), @)",
+                      "map(&k, @)", "length(map(&k, @))", "map(&type(k), @)", "[*].type(@)", "[].type(@)", "map(&type(@), @) | length(@)",
+                      "sort_by(@, &type(@))", "max_by(@, &to_string(@))", "min_by(@, &length(to_string(@)))", "sort_by(@, &to_string(@)) | map(&type(@), @)"]:
+                out.append("search %s %s" % (wire.s(e), wire.val(arr)))
         # nested in expressions
         M = 300 if tier == "quick" else 20000
         for _ in range(M):
